@@ -754,12 +754,48 @@ def install_ctor_probe(ctx):
 
 
 # --------------------------------------------------------------------------
+# division logger (pure-Python decimalfp only): trigger predictor for the
+# native tier of C01 -- DESIGN.md section 3
+
+HAZARD = {"n": 0}
+
+
+def install_divlog():
+    try:
+        import decimalfp
+        from decimalfp import _pydecimalfp as P
+    except Exception:
+        return False
+    if decimalfp.Decimal is not P.Decimal:
+        return False
+    D = P.Decimal
+    orig = D.__truediv__
+    if getattr(orig, "_vq_divlog", False):
+        return True
+
+    def truediv(self, other):
+        try:
+            if self.precision == 9 and (
+                    isinstance(other, int) or
+                    (isinstance(other, D) and other.precision == 0)):
+                HAZARD["n"] += 1
+        except Exception:
+            pass
+        return orig(self, other)
+
+    truediv._vq_divlog = True
+    D.__truediv__ = truediv
+    return True
+
+
+# --------------------------------------------------------------------------
 # main loop
 
 def run_program(ctx, prog):
     obs = {}
     ctx.ctor_events.clear()
     ctx.nctor = 0
+    HAZARD["n"] = 0
     err = None
     try:
         ctx.run_steps(prog["steps"], obs)
@@ -768,7 +804,8 @@ def run_program(ctx, prog):
     except Exception:
         err = "harness crash: " + traceback.format_exc()[-600:]
     rec = {"pid": prog["pid"], "obs": obs, "nctor": ctx.nctor,
-           "ctor": [list(k) for k in ctx.ctor_events]}
+           "ctor": [list(k) for k in ctx.ctor_events],
+           "hazard": HAZARD["n"]}
     if err:
         rec["err"] = err
     return rec
@@ -861,6 +898,11 @@ def main(argv):
     ctx = Ctx()
     if job.get("ctor_probe", True):
         install_ctor_probe(ctx)
+    if job.get("divlog"):
+        install_divlog()
+    if job.get("faulthandler"):
+        import faulthandler
+        faulthandler.enable()
     timeout = float(job.get("prog_timeout", 120))
     import decimalfp
     with open(outfile, "w") as out:
